@@ -245,4 +245,7 @@ pub fn run(g: &mut Global) {
     );
     let th = g.tier == Tier::Thorough;
     g.random("random", g.tier.pick(100000, 1000000), &move || strategy(th), &check);
+    if g.tier == Tier::Thorough {
+        g.fuzz_stage("ops_pred", Some(1), 600_000, "random", &|b| crate::fuzzdec::decode_c08(b), &check);
+    }
 }
